@@ -100,7 +100,7 @@ class RefInterp:
         except RErr:
             self.last = key
             sc = self.scopes[-1]
-            if key in sc: raise Crash('lookup_or_create!: create_var fails after a failed lookup (name is a function in the innermost scope)')
+            if key in sc: raise RErr('EnvironmentError', 'DuplicateSymbol')
             sc[key] = ['var', UNDEF()]; return sc[key]
 
     def lookup_func(self, key):
@@ -324,7 +324,9 @@ class Exec:
 
     def program(self, prog):
         ri = self.ri
-        for b in ri.items(ri.nm.field(ri.deref(prog), 'code')): self.block(b)
+        for b in ri.items(ri.nm.field(ri.deref(prog), 'code')):
+            self.block(b)
+            if self.state != 'Normal': break          # an exit that reaches the top level ends the program
 
     def block(self, b):
         ri = self.ri; b = ri.deref(b)
